@@ -819,7 +819,7 @@ func (c *converter) addEndLine(line string) {
 }
 
 func (c *converter) mustCurrentForLabel() string {
-	return forLabel(c.forCounter - 1)
+	return c.fors[len(c.fors)-1].label
 }
 
 func (c *converter) mustCurrentForVar() string {
